@@ -510,7 +510,7 @@ func (m *counterModel) analyse(fn *ssa.Function, entry ival) (ival, string) {
 
 func runC19(c *Ctx) {
 	P := c.P
-	c.Explanation = "Decides: (R-BUF-BOUND) 'Len never exceeds the buffer size' as an inductive invariant found by a one-variable abstract interpretation of δ = |buf| − cap over the go/ssa CFG of every Counter method: transfer functions for the mapset calls are derived on every run from mapset's own bodies (grows by ≤ k, shrinks, empties, reads length), guards on Len() vs cap refine δ, loops are iterated to a fixpoint with widening; the check looks for k ∈ {−1, 0} with δ ≤ k established by the constructor and preserved from entry to every exit of every method. (R-P-MONOTONE) p is only ever set to MaxUint64 (constructor, Reset) or shifted right, and Count is Len × 2^LeadingZeros(p), so the scale never decreases before Reset. (R-EXACT-REGIME) removals and halvings are control-dependent on p < MaxUint64 or Len ≥ cap, so below capacity the buffer is the exact set. Does NOT decide unbiasedness (a statement about a probability distribution) or the p = 0 corner after 64 passes."
+	c.Explanation = "Decides: (R-BUF-BOUND) 'Len never exceeds the buffer size' as an inductive invariant found by a one-variable abstract interpretation of δ = |buf| − cap over the go/ssa CFG of every Counter method: transfer functions for the mapset calls are derived on every run from mapset's own bodies (grows by ≤ k, shrinks, empties, reads length), guards on Len() vs cap refine δ, loops are iterated to a fixpoint with widening; the check looks for k ∈ {−1, 0} with δ ≤ k established by the constructor and preserved from entry to every exit of every method. (R-P-MONOTONE) p is only ever set to MaxUint64 (constructor, Reset) or shifted right, and Count is Len × 2^LeadingZeros(p), so the scale never decreases before Reset. (R-EXACT-REGIME) removals and halvings are control-dependent on p < MaxUint64 or Len ≥ cap, so below capacity the buffer is the exact set. (R-PASS-COMPLETE) a removal pass over the buffer has no exit but exhaustion; (R-SEED-FRESH) each counter's random source is seeded from a local buffer filled by crypto/rand in the constructor call. Does NOT decide unbiasedness (a statement about a probability distribution) or the p = 0 corner after 64 passes."
 	c.rule("R-BUF-BOUND", 4, "some k in {-1,0}: constructor establishes |buf|-cap <= k and every method preserves it from entry to every exit")
 	c.rule("R-P-MONOTONE", 3, "every store to p is MaxUint64 or load(p) >> const; Count = Len × (1 << LeadingZeros64(p))")
 	c.rule("R-RESET-PAIR", 1, "outside the constructor, p := MaxUint64 is paired in-block with emptying the buffer")
